@@ -6,6 +6,37 @@
 use std::cell::{Cell, UnsafeCell};
 use std::ops::{Deref, DerefMut};
 
+/// Leaking stand-in for std::sync::Arc (only `new`, `clone`, `Deref`, `ptr_eq` are used by the crate): the allocation is never
+/// freed and has NO Drop impl.  Dropped: deallocation and every destructor behind an Arc (reference counts are not modelled).
+/// Why: with the real Arc, CBMC explores `drop_slow` recursively through every `dyn Fn` closure that captures another Arc
+/// (Observer -> teardown closure -> StreamController/Subject map -> Observer ...), which made L2' harnesses run out of memory.
+pub struct Arc<T> {
+  p: *const T,
+}
+unsafe impl<T: Send + Sync> Send for Arc<T> {}
+unsafe impl<T: Send + Sync> Sync for Arc<T> {}
+impl<T> Arc<T> {
+  pub fn new(v: T) -> Arc<T> {
+    Arc { p: Box::into_raw(Box::new(v)) }
+  }
+  pub fn ptr_eq(a: &Arc<T>, b: &Arc<T>) -> bool {
+    std::ptr::eq(a.p, b.p)
+  }
+}
+impl<T> Clone for Arc<T> {
+  #[inline(always)]
+  fn clone(&self) -> Arc<T> {
+    Arc { p: self.p }
+  }
+}
+impl<T> Deref for Arc<T> {
+  type Target = T;
+  #[inline(always)]
+  fn deref(&self) -> &T {
+    unsafe { &*self.p }
+  }
+}
+
 pub struct Lk<G>(G);
 impl<G> Lk<G> {
   #[inline(always)]
@@ -111,19 +142,96 @@ impl<'a, T> Drop for RwLockWriteGuard<'a, T> {
   }
 }
 
-/// fixed-capacity association map with the HashMap methods the crate uses (no heap: a `Vec<(K, Observer)>` made CBMC's drop-glue
-/// exploration blow up).  Capacity MAP_CAP entries (inserting more is reported as a harness bound violation).  Iteration order:
-/// slot order, or its reverse when `REVERSE_ITER` is set by the harness (so order-dependence of HashMap iteration is exercised
-/// for both orders).
-pub const MAP_CAP: usize = 3;
+/// association-list map with the HashMap methods the crate uses.  Iteration order: insertion order, or its reverse when
+/// `REVERSE_ITER` is set by the harness (so order-dependence of HashMap iteration is exercised for both orders of <=2 entries).
 pub struct HashMap<K, V> {
-  e: [Option<(K, V)>; MAP_CAP],
+  e: Vec<(K, V)>,
 }
 pub static REVERSE_ITER: std::sync::atomic::AtomicBool = std::sync::atomic::AtomicBool::new(false);
 
 impl<K: PartialEq, V> HashMap<K, V> {
   pub fn new() -> HashMap<K, V> {
-    HashMap { e: [None, None, None] }
+    HashMap { e: Vec::new() }
+  }
+  pub fn insert(&mut self, k: K, v: V) -> Option<V> {
+    let mut i = 0;
+    while i < self.e.len() {
+      if self.e[i].0 == k {
+        let old = std::mem::replace(&mut self.e[i].1, v);
+        return Some(old);
+      }
+      i += 1;
+    }
+    self.e.push((k, v));
+    None
+  }
+  pub fn remove(&mut self, k: &K) -> Option<V> {
+    let mut i = 0;
+    while i < self.e.len() {
+      if self.e[i].0 == *k {
+        return Some(self.e.remove(i).1);
+      }
+      i += 1;
+    }
+    None
+  }
+  pub fn get(&self, k: &K) -> Option<&V> {
+    let mut i = 0;
+    while i < self.e.len() {
+      if self.e[i].0 == *k {
+        return Some(&self.e[i].1);
+      }
+      i += 1;
+    }
+    None
+  }
+  pub fn contains_key(&self, k: &K) -> bool {
+    self.get(k).is_some()
+  }
+  pub fn len(&self) -> usize {
+    self.e.len()
+  }
+  pub fn is_empty(&self) -> bool {
+    self.e.is_empty()
+  }
+  pub fn clear(&mut self) {
+    self.e.clear();
+  }
+  pub fn iter(&self) -> MapIter<'_, K, V> {
+    MapIter { m: self, i: 0, rev: REVERSE_ITER.load(std::sync::atomic::Ordering::Relaxed) }
+  }
+}
+pub struct MapIter<'a, K, V> {
+  m: &'a HashMap<K, V>,
+  i: usize,
+  rev: bool,
+}
+impl<'a, K, V> Iterator for MapIter<'a, K, V> {
+  type Item = (&'a K, &'a V);
+  fn next(&mut self) -> Option<(&'a K, &'a V)> {
+    let n = self.m.e.len();
+    if self.i >= n {
+      return None;
+    }
+    let idx = if self.rev { n - 1 - self.i } else { self.i };
+    self.i += 1;
+    let (k, v) = &self.m.e[idx];
+    Some((k, v))
+  }
+}
+
+/// fixed-capacity association map with the HashMap methods the crate uses (no heap: a `Vec<(K, Observer)>` made CBMC's drop-glue
+/// exploration blow up).  Capacity MAP_CAP entries (inserting more is reported as a harness bound violation).  Iteration order:
+/// slot order, or its reverse when `REVERSE_ITER` is set by the harness (so order-dependence of HashMap iteration is exercised
+/// for both orders).
+pub const MAP_CAP: usize = 3;
+pub struct ArrayHashMap<K, V> {
+  e: [Option<(K, V)>; MAP_CAP],
+}
+
+impl<K: PartialEq, V> ArrayHashMap<K, V> {
+  pub fn new() -> ArrayHashMap<K, V> {
+    ArrayHashMap { e: [None, None, None] }
   }
   fn find(&self, k: &K) -> Option<usize> {
     macro_rules! at {
@@ -196,16 +304,16 @@ impl<K: PartialEq, V> HashMap<K, V> {
     self.e[1] = None;
     self.e[2] = None;
   }
-  pub fn iter(&self) -> MapIter<'_, K, V> {
-    MapIter { m: self, i: 0, rev: REVERSE_ITER.load(std::sync::atomic::Ordering::Relaxed) }
+  pub fn iter(&self) -> ArrayMapIter<'_, K, V> {
+    ArrayMapIter { m: self, i: 0, rev: REVERSE_ITER.load(std::sync::atomic::Ordering::Relaxed) }
   }
 }
-pub struct MapIter<'a, K, V> {
-  m: &'a HashMap<K, V>,
+pub struct ArrayMapIter<'a, K, V> {
+  m: &'a ArrayHashMap<K, V>,
   i: usize,
   rev: bool,
 }
-impl<'a, K, V> Iterator for MapIter<'a, K, V> {
+impl<'a, K, V> Iterator for ArrayMapIter<'a, K, V> {
   type Item = (&'a K, &'a V);
   fn next(&mut self) -> Option<(&'a K, &'a V)> {
     // loop-free (unrolled over MAP_CAP)
